@@ -116,6 +116,14 @@ def gen_case(seed):
         sc["fates"]["blackouts"] = [bo]
         sc["fates"]["adv_seconds"] = 1e9
         sc["fates"]["adv_dgrams"] = 10**9
+        r6 = random.Random("c09-noidle/%s" % seed)
+        if r6.random() < 0.2:
+            # the peer is a stack that advertises max_idle_timeout = 0 ("none of my own"): the endpoint's own timeout
+            # is then the negotiated one, it must not give up earlier
+            side = r6.choice(["client", "server"])
+            sc["opts"]["advertise_" + side] = {"max_idle_timeout": 0}
+            sc["opts"].pop("resume", None)
+            sc["opts"].pop("resume_forget", None)
     r5 = random.Random("c09-ampblocked/%s" % seed)
     if r5.random() < 0.07:
         # directed: the server application closes while the server cannot send a single byte: its first flight (a
@@ -254,7 +262,7 @@ def run_batch(batch):
         cm = monitors.CloseMonitor(on_time=on_time)
         dm = monitors.DeliveryModel(forbid_termination=False, completion=False)
         sim, ok = run_case(sc, [tm, cm, dm], res, {"gen": "close", "seeds": [seed]},
-                           counters=("closing_checks", "deadline_checks", "idle_checks", "api_close_deadline_checks"),
+                           counters=("closing_checks", "deadline_checks", "idle_checks", "api_close_deadline_checks", "idle_early_checks"),
                            nontrivial=lambda s: bool(cm.term),
                            sig_extra=(sc["mode"], tuple(sorted(cm.close_kinds)), on_time, sc["opts"]["idle_client"], sc["opts"]["idle_server"]))
         for k in cm.close_kinds:
